@@ -48,7 +48,18 @@ def wf_key(wf) -> str:
         return "const:%s:%s" % (_skey(wf._duration), _skey(wf._value))
     if isinstance(wf, RampWaveform):
         return "ramp:%s:%s:%s" % (_skey(wf._duration), _skey(wf._start), _skey(wf._stop))
-    return "obj:%d" % id(wf)
+    from pulser.waveforms import BlackmanWaveform, CompositeWaveform, CustomWaveform
+
+    if isinstance(wf, BlackmanWaveform):
+        return "blackman:%s:%s" % (_skey(wf._duration), _skey(wf._area))
+    if isinstance(wf, CustomWaveform):
+        return "custom:" + ",".join(_skey(x) for x in wf._samples_arr._array.flat)
+    if isinstance(wf, CompositeWaveform):
+        return "composite(" + ";".join(wf_key(w) for w in wf._waveforms) + ")"
+    try:
+        return "%s:%s" % (type(wf).__name__, ",".join(repr(float(x)) for x in wf._samples.as_array(detach=True)))
+    except Exception:  # noqa: BLE001
+        return "obj:%d" % id(wf)
 
 
 def stub_modulation_buffers(self, channel, eom: bool = False):
